@@ -19,7 +19,7 @@ fn cfgs() -> Vec<Entry> {
     c!(v, true,"noalloc",W8,Stack<24>,dyn Send);
     // the zero-capacity backend (the crate's default backend when the alloc feature is off)
     c!(v, true,"noalloc",W8D,any_vec::mem::Empty,dyn Cloneable);
-    c!(v, true,"noalloc",Q16D,any_vec::mem::Empty,dyn TNone);
+    c!(v, true,"noalloc",H2D,any_vec::mem::Empty,dyn TNone); // (alignment <= 8: without alloc the auxiliary vectors live in inline storage)
     v
 }
 fn main() { anyvec_mc::main_with(cfgs) }
